@@ -47,6 +47,23 @@ def dtype_comparisons(ctx, world):
             n += 1
             inst = f"{mod.name}:{norm_text(x)[:60]}"
             ctx.fail("A4.dtypecmp", inst, f"dtypecmp:{mod.name}|{norm_text(x)[:80]}", loc_of(mod, x), f"`{norm_text(x)[:70]}` compares a dtype with a Python scalar type: true for one width only (complex128 / float64)", "the same call with complex64 (or float32) operands: the kind decision takes the other branch, e.g. the imaginary part of a cotangent is dropped")
+        # issubclass(dtype.type, complex) / isinstance(dtype.type(..), complex): the Python class hierarchy knows only
+        # complex128 (and float64) as subclasses of the builtin scalar types
+        for x in ast.walk(mod.tree):
+            if not (isinstance(x, ast.Call) and isinstance(x.func, ast.Name) and x.func.id in ("issubclass", "isinstance") and len(x.args) == 2 and not x.keywords):
+                continue
+            fr = world.repo.resolve_expr(mod, x.func)
+            if fr is None or fr.qual not in ("builtins.issubclass", "builtins.isinstance", "autograd.builtins.isinstance"):
+                continue
+            cands = list(x.args[1].elts) if isinstance(x.args[1], (ast.Tuple, ast.List)) else [x.args[1]]
+            scal = [c for c in cands if isinstance(c, (ast.Name, ast.Attribute)) and (lambda r: r is not None and getattr(r, "qual", None) in ("builtins.complex", "builtins.float"))(world.repo.resolve_expr(mod, c))]
+            sub_ = x.args[0]
+            is_type_of_dtype = isinstance(sub_, ast.Attribute) and sub_.attr == "type" and _mentions_dtype(sub_.value)
+            if not fr.qual.endswith("issubclass") or not scal or not is_type_of_dtype:
+                continue
+            n += 1
+            inst = f"{mod.name}:{norm_text(x)[:60]}"
+            ctx.fail("A4.dtypecmp", inst, f"dtypecmp:{mod.name}|{norm_text(x)[:80]}", loc_of(mod, x), f"`{norm_text(x)[:70]}` asks the Python class hierarchy about a dtype's scalar type: only complex128 / float64 derive from the builtin complex / float", "the same call with complex64 (or clongdouble) operands: the value is classified as real and the imaginary part of its cotangent is dropped")
     ctx.ob("A4.dtypecmp", "dtype-valued expressions are never compared with Python scalar types", True, "autograd/*", nontrivial=False) if n == 0 else None
 
 
